@@ -122,16 +122,18 @@ theorem decode_returns_2d_code (H : HashFn) (enc : List Bytes → List Bytes) (r
     vacuous; the real codec's outputs satisfy the shape on every correspondence line -/
 example : ∀ k, EncShape (fun row => row) k := fun _ _ h => h
 
-/-- **The accepted payload is THE square committed by the DAH** (idealised hash).  Whatever codecs, app versions
-    and payloads two accepting runs of the decoder used: if they accepted against the same DAH, they accepted the
-    same payload and returned the same square.  So "any other payload is rejected". -/
-theorem accepted_unique {H : HashFn} (hk : HashOK H) {enc enc' : List Bytes → List Bytes} (hs : ∀ k, EncShape enc k)
+/-- **The accepted payload is THE square committed by the DAH.**  Whatever codecs, app versions and payloads two accepting
+    runs of the decoder used: if they accepted against the same DAH, they accepted the same payload and returned the
+    same square.  So "any other payload is rejected".  Hash hypothesis: 32-byte output and no collision among the byte
+    strings hashed by `from_eds` for the two returned squares (an explicit finite list; reduction form below). -/
+theorem accepted_unique {H : HashFn} {enc enc' : List Bytes → List Bytes} (hs : ∀ k, EncShape enc k)
     (hs' : ∀ k, EncShape enc' k) {raw raw' : Bytes} {dah : Dah} {ver ver' : Nat} {e e' : Eds}
-    (h : decodeAndVerify H enc raw dah ver = .ok e) (h' : decodeAndVerify H enc' raw' dah ver' = .ok e') :
+    (h : decodeAndVerify H enc raw dah ver = .ok e) (h' : decodeAndVerify H enc' raw' dah ver' = .ok e')
+    (hk : HashOKOn H (fun y => y ∈ Lumina.Proofs.Eds.edsInputs H e ++ Lumina.Proofs.Eds.edsInputs H e')) :
     raw = raw' ∧ e = e' := by
   have ok := decode_ok h
   have ok' := decode_ok h'
-  obtain ⟨hX, he⟩ := dah_binds hk ok.newOK ok'.newOK ok.dah ok'.dah
+  obtain ⟨hX, he⟩ := dah_binds ok.newOK ok'.newOK ok.dah ok'.dah hk
   refine ⟨?_, he⟩
   obtain ⟨hg, hw⟩ := ok.shape hs
   obtain ⟨hg', hw'⟩ := ok'.shape hs'
@@ -142,6 +144,17 @@ theorem accepted_unique {H : HashFn} (hk : HashOK H) {enc enc' : List Bytes → 
   have hc : chunks SHARE_SIZE raw = chunks SHARE_SIZE raw' := by rw [← hq, ← hq']
   have h512 : 0 < SHARE_SIZE := by decide
   rw [← chunks_flatten h512 raw, ← chunks_flatten h512 raw', hc]
+
+/-- reduction form: two DIFFERENT payloads accepted against one DAH yield an explicit collision of the (32-byte-output)
+    hash among the byte strings hashed for the two returned squares -/
+theorem accepted_unique_or_collision {H : HashFn} (hl : HashLen H) {enc enc' : List Bytes → List Bytes} (hs : ∀ k, EncShape enc k)
+    (hs' : ∀ k, EncShape enc' k) {raw raw' : Bytes} {dah : Dah} {ver ver' : Nat} {e e' : Eds}
+    (h : decodeAndVerify H enc raw dah ver = .ok e) (h' : decodeAndVerify H enc' raw' dah ver' = .ok e')
+    (hne : raw ≠ raw') :
+    CollisionIn H (fun y => y ∈ Lumina.Proofs.Eds.edsInputs H e ++ Lumina.Proofs.Eds.edsInputs H e') := by
+  rcases noCollOn_or_collision H (fun y => y ∈ Lumina.Proofs.Eds.edsInputs H e ++ Lumina.Proofs.Eds.edsInputs H e') with hn | hn
+  · exact (hne (accepted_unique hs hs' h h' ⟨hn, hl⟩).1).elim
+  · exact hn
 
 /-- **Completeness**: the honest payload — the original data square of a square built by `from_ods`, row-major —
     checked against that square's own DAH is accepted and the very same square is returned. -/
